@@ -372,6 +372,7 @@ class SubRec:
         self.ack_sent_seq = None
         self.yields = []              # (seq, item)
         self.terminal = None          # ("end",) | ("exc", typename, info)
+        self.call = None              # (operation name, variables, root field) once the subscription was started
         self.client_done_time = None
         self.server_done_time = None
         self.server_saw_close = None  # True if the client closed within the linger budget
@@ -822,6 +823,10 @@ def judge(cfg, recs, info, res: RunResult, variant):
                 else:
                     if r.ack_sent_seq is None or s_seq < r.ack_sent_seq:
                         V("subscribe-before-ack", "%s: subscribe reached the server before connection_ack was sent" % tag)
+                    if r.call is None:
+                        # a connection was attributed to a subscription that never started (its routing header did not arrive)
+                        V("handshake-headers", "%s: a connection without the per-call headers reached the server" % tag, header="X-Sim-Sub")
+                        continue
                     opname, variables, root = r.call
                     pl = s_fr.get("payload") if isinstance(s_fr.get("payload"), dict) else {}
                     if not isinstance(s_fr.get("id"), str) or not s_fr.get("id"):
